@@ -99,8 +99,19 @@ def c05(tier, seed):
     )
 
 
+def c04(tier, seed):
+    return generic(
+        "C04", tier, seed, level="fault_enumeration", budgets=(60, 600),
+        rule="fault = corruption of one encrypted chunk k (bit flip in its payload, bit flip in its tag, truncation inside it) of a valid encrypted archive, "
+             "for every chunk index; contents are aligned so that a block header starts chunk k+1; the authenticated repair output is compared with the bytes "
+             "the model finds in the plaintext of chunks 0..k-1 (upper bound) and with the unauthenticated output; distinct = distinct (program, fault); all are non-trivial",
+        musthit=["musthit:k0", "musthit:klast", "musthit:kmid", "musthit:kmid_with_block_header_at_next_chunk"],
+    )
+
+
 PROPS = {
     "C01": c01,
+    "C04": c04,
     "C02": c02,
     "C05": c05,
     "C11": c11,
